@@ -1,4 +1,5 @@
 import UtilModel.Core.LTSHash
+import UtilModel.Core.LTSComplete
 import UtilModel.Conc.Props
 /-!
 # Conc — end-to-end transfer
@@ -13,5 +14,1139 @@ theorem C18_accepted (cap fuel : Nat) (h : List Conc.Obs)
     (ha : Conc.model.acceptsH cap fuel h = true) : Conc.monC18.accepts h = true :=
   acceptedH_satisfies Conc.model (fun h => Conc.monC18.accepts h = true)
     Conc.C18_obs cap fuel h ha
+
+end UtilModel
+
+/-! ## A REJECT is about the model — through the reduced search
+
+`Conc.model.cands` is deliberately **not** complete in the sense of `OLTS.Complete`: when a `WaitIdle`
+caller is about to sample a busy queue, or a worker holds a nil job, only that one internal event is
+tried (`Conc.eagerEvent`, a partial-order reduction of the search; `not_complete_conc`). The REJECT
+verdict is nevertheless a statement about the full model: the checker is exactly the checker of the
+model *restricted* to the candidate events (`OLTS.restrict`, `accRunH_restrict`, both generic, from
+`Treiber/Transfer.lean`), the restricted model is `Complete` (`complete_conc_reduced`), and every
+observable trace of the full model is the trace of a run of the restricted one
+(`Conc.reduced_covers_model`, a forward simulation). -/
+namespace UtilModel.Conc
+open UtilModel
+
+/-- every enabled internal event is one of `allCands` (the unreduced candidate list) -/
+theorem allCands_complete (s s' : St) (e : Ev) (hs : step s e = some s') (ho : e.obs = none) :
+    e ∈ allCands s := by
+  unfold allCands
+  cases e <;> simp [Ev.obs] at ho <;> simp only [step] at hs
+  all_goals
+    split at hs
+    all_goals try (simp at hs; done)
+    all_goals
+      simp only [List.mem_append, List.mem_flatMap, List.mem_range]
+      first
+        | exact Or.inl ⟨_, lt_of_getElem? (by assumption), by simp⟩
+        | exact Or.inr ⟨_, lt_of_getElem? (by assumption), by simp⟩
+
+/-- `evsOf` is complete: a job entry / exit is tried for every worker goroutine -/
+theorem evs_complete (s : St) (e : Ev) (s' : St) (o : Obs) (hs : model.step s e = some s')
+    (ho : model.obs e = some o) : e ∈ model.evsOf s o := by
+  change step s e = some s' at hs
+  change e.obs = some o at ho
+  show e ∈ evsOf s o
+  cases e <;> simp [Ev.obs] at ho <;> subst ho <;> simp [evsOf]
+  all_goals
+    simp only [step] at hs
+    split at hs <;> try simp at hs
+    rename_i h
+    first
+      | exact lt_of_getElem? h
+      | (rename_i h2; exact lt_of_getElem? h2)
+
+
+/-! ### the simulation relation
+
+The restricted run may be *ahead* of the full run by eager events: a `WaitIdle` caller that the full
+run still has before its sample section (`wiInv`, or parked on a channel that has been closed since)
+is already parked in the restricted run, and a worker that the full run still has in front of a nil
+job is already past it. Everything else is equal, except for the ghost fields of the jobs, of which
+only `isNil` and "is active" (`Job.view`) are ever read. -/
+
+/-- the state with other call / worker / job tables -/
+abbrev St.with3 (s : St) (a : List TS) (b : List WSt) (d : List Job) : St :=
+  { s with th := a, ws := b, jobs := d }
+
+/-- what a step can see of a job -/
+def Job.view (jb : Job) : Bool × Bool := (jb.isNil, jb.st == .active)
+
+def nilAt (jobs : List Job) (j : Nat) : Bool :=
+  match jobs[j]? with
+  | some jb => jb.isNil
+  | none => false
+
+/-- call states: equal, or the restricted run has already parked the caller -/
+def TR (bc : Bcast) (x y : TS) : Prop :=
+  x = y ∨ ∃ n0 ch', y = .wiParked n0 ch' ∧
+    (x = .wiInv n0 ∨ ∃ ch, x = .wiParked n0 ch ∧ bc.closed ch = true)
+
+/-- worker states: equal, or the restricted run has already skipped the nil job -/
+def WR (jobs : List Job) (x y : WSt) : Prop :=
+  x = y ∨ ∃ j, x = .hasJob j ∧ y = .afterJob ∧ nilAt jobs j = true
+
+structure RelC (bc : Bcast) (th0 : List TS) (ws0 : List WSt) (jobs0 : List Job)
+    (a : List TS) (b : List WSt) (d : List Job) : Prop where
+  thlen : a.length = th0.length
+  th : ∀ (t : Nat) (x y : TS), th0[t]? = some x → a[t]? = some y → TR bc x y
+  wslen : b.length = ws0.length
+  ws : ∀ (w : Nat) (x y : WSt), ws0[w]? = some x → b[w]? = some y → WR jobs0 x y
+  jobs : d.map Job.view = jobs0.map Job.view
+
+variable {bc bc' : Bcast} {th : List TS} {ws : List WSt} {jobs : List Job} {a : List TS} {b : List WSt}
+  {d : List Job}
+
+theorem RelC.refl (bc : Bcast) (th : List TS) (ws : List WSt) (jobs : List Job) :
+    RelC bc th ws jobs th ws jobs :=
+  ⟨rfl, fun _ x y hx hy => by rw [hx] at hy; cases hy; exact Or.inl rfl, rfl,
+   fun _ x y hx hy => by rw [hx] at hy; cases hy; exact Or.inl rfl, rfl⟩
+
+theorem getElem?_of_len {α β : Type} {l : List α} {l' : List β} (hl : l'.length = l.length) {i : Nat} {x : α}
+    (h : l[i]? = some x) : ∃ y, l'[i]? = some y := by
+  have := lt_of_getElem? h
+  exact ⟨l'[i]'(by omega), by simp⟩
+
+theorem set_of_getElem? {α : Type} {l : List α} {i : Nat} {y : α} (hy : l[i]? = some y) :
+    l.set i y = l := by
+  apply List.ext_getElem?
+  intro k
+  rw [List.getElem?_set]
+  split
+  · rename_i hi; subst hi; rw [hy]; simp [lt_of_getElem? hy]
+  · rfl
+
+theorem RelC.th_get (h : RelC bc th ws jobs a b d) {t : Nat} {x : TS}
+    (hx : th[t]? = some x) : ∃ y, a[t]? = some y ∧ TR bc x y := by
+  obtain ⟨y, hy⟩ := getElem?_of_len h.thlen hx
+  exact ⟨y, hy, h.th t x y hx hy⟩
+
+theorem RelC.ws_get (h : RelC bc th ws jobs a b d) {w : Nat} {x : WSt}
+    (hx : ws[w]? = some x) : ∃ y, b[w]? = some y ∧ WR jobs x y := by
+  obtain ⟨y, hy⟩ := getElem?_of_len h.wslen hx
+  exact ⟨y, hy, h.ws w x y hx hy⟩
+
+def TS.isWi : TS → Bool
+  | .wiInv _ | .wiParked _ _ => true
+  | _ => false
+
+theorem TR.eq_of_not_wi {x y : TS} (h : TR bc x y) (hx : x.isWi = false) : y = x := by
+  rcases h with rfl | ⟨n0, ch', rfl, rfl | ⟨ch, rfl, _⟩⟩
+  · rfl
+  · simp [TS.isWi] at hx
+  · simp [TS.isWi] at hx
+
+theorem TR.eq_of_open {n0 ch : Nat} {y : TS} (h : TR bc (.wiParked n0 ch) y) (hx : bc.closed ch = false) :
+    y = .wiParked n0 ch := by
+  rcases h with rfl | ⟨n0', ch', rfl, h | ⟨ch2, h, hc⟩⟩
+  · rfl
+  · cases h
+  · cases h; rw [hx] at hc; cases hc
+
+theorem TR.parked {n0 ch : Nat} {y : TS} (h : TR bc (.wiParked n0 ch) y) : ∃ ch', y = .wiParked n0 ch' := by
+  rcases h with rfl | ⟨n0', ch', rfl, h | ⟨ch2, h, hc⟩⟩
+  · exact ⟨_, rfl⟩
+  · cases h
+  · cases h; exact ⟨_, rfl⟩
+
+theorem TR.mono {x y : TS} (h : TR bc x y) (hm : ∀ ch, bc.closed ch = true → bc'.closed ch = true) :
+    TR bc' x y := by
+  rcases h with rfl | ⟨n0, ch', rfl, rfl | ⟨ch, rfl, hc⟩⟩
+  · exact Or.inl rfl
+  · exact Or.inr ⟨n0, ch', rfl, Or.inl rfl⟩
+  · exact Or.inr ⟨n0, ch', rfl, Or.inr ⟨ch, rfl, hm ch hc⟩⟩
+
+theorem bcast_closed_mono (b : Bcast) (ch : Nat) (h : b.closed ch = true) : (bcast b).closed ch = true := by
+  unfold bcast Bcast.broadcast Bcast.getWaitCh Bcast.closed at *
+  simp at h ⊢
+  omega
+
+theorem WR.eq_of_not_hasJob {x y : WSt} (h : WR jobs x y) (hx : x.isHasJob = false) : y = x := by
+  rcases h with rfl | ⟨j, rfl, _, _⟩
+  · rfl
+  · simp [WSt.isHasJob] at hx
+
+theorem RelC.set_th (h : RelC bc th ws jobs a b d) (t : Nat) (x' y' : TS)
+    (hxy : TR bc x' y') : RelC bc (th.set t x') ws jobs (a.set t y') b d := by
+  refine ⟨by simp [h.thlen], ?_, h.wslen, h.ws, h.jobs⟩
+  intro u x y hx hy
+  rcases getElem?_set_cases _ _ _ _ _ hx with ⟨rfl, rfl⟩ | ⟨hne, hx'⟩
+  · rcases getElem?_set_cases _ _ _ _ _ hy with ⟨_, rfl⟩ | ⟨hne, _⟩
+    · exact hxy
+    · exact absurd rfl hne
+  · rcases getElem?_set_cases _ _ _ _ _ hy with ⟨e, _⟩ | ⟨_, hy'⟩
+    · exact absurd e hne
+    · exact h.th u x y hx' hy'
+
+theorem RelC.set_th_same (h : RelC bc th ws jobs a b d) (t : Nat) (z : TS) :
+    RelC bc (th.set t z) ws jobs (a.set t z) b d := h.set_th t z z (Or.inl rfl)
+
+/-- only the full run moves a caller (to where the restricted run already is) -/
+theorem RelC.set_th_left (h : RelC bc th ws jobs a b d) (t : Nat) (x' y : TS)
+    (hy : a[t]? = some y) (hxy : TR bc x' y) : RelC bc (th.set t x') ws jobs a b d := by
+  have := h.set_th t x' y hxy
+  rwa [set_of_getElem? hy] at this
+
+theorem RelC.push_th (h : RelC bc th ws jobs a b d) (z : TS) :
+    RelC bc (th ++ [z]) ws jobs (a ++ [z]) b d := by
+  refine ⟨by simp [h.thlen], ?_, h.wslen, h.ws, h.jobs⟩
+  intro u x y hx hy
+  rcases getElem?_snoc_cases _ _ _ _ hx with ⟨hlt, hx'⟩ | ⟨e, rfl⟩
+  · rcases getElem?_snoc_cases _ _ _ _ hy with ⟨_, hy'⟩ | ⟨e, _⟩
+    · exact h.th u x y hx' hy'
+    · have := h.thlen; omega
+  · rcases getElem?_snoc_cases _ _ _ _ hy with ⟨hlt, _⟩ | ⟨_, rfl⟩
+    · have := h.thlen; omega
+    · exact Or.inl rfl
+
+theorem RelC.mono_bc (h : RelC bc th ws jobs a b d)
+    (hm : ∀ ch, bc.closed ch = true → bc'.closed ch = true) : RelC bc' th ws jobs a b d :=
+  ⟨h.thlen, fun t x y hx hy => (h.th t x y hx hy).mono hm, h.wslen, h.ws, h.jobs⟩
+
+theorem RelC.set_ws (h : RelC bc th ws jobs a b d) (w : Nat) (x' y' : WSt)
+    (hxy : WR jobs x' y') : RelC bc th (ws.set w x') jobs a (b.set w y') d := by
+  refine ⟨h.thlen, h.th, by simp [h.wslen], ?_, h.jobs⟩
+  intro u x y hx hy
+  rcases getElem?_set_cases _ _ _ _ _ hx with ⟨rfl, rfl⟩ | ⟨hne, hx'⟩
+  · rcases getElem?_set_cases _ _ _ _ _ hy with ⟨_, rfl⟩ | ⟨hne, _⟩
+    · exact hxy
+    · exact absurd rfl hne
+  · rcases getElem?_set_cases _ _ _ _ _ hy with ⟨e, _⟩ | ⟨_, hy'⟩
+    · exact absurd e hne
+    · exact h.ws u x y hx' hy'
+
+theorem RelC.set_ws_same (h : RelC bc th ws jobs a b d) (w : Nat) (z : WSt) :
+    RelC bc th (ws.set w z) jobs a (b.set w z) d := h.set_ws w z z (Or.inl rfl)
+
+theorem RelC.set_ws_left (h : RelC bc th ws jobs a b d) (w : Nat) (x' y : WSt)
+    (hy : b[w]? = some y) (hxy : WR jobs x' y) : RelC bc th (ws.set w x') jobs a b d := by
+  have := h.set_ws w x' y hxy
+  rwa [set_of_getElem? hy] at this
+
+theorem RelC.push_ws (h : RelC bc th ws jobs a b d) (z : WSt) :
+    RelC bc th (ws ++ [z]) jobs a (b ++ [z]) d := by
+  refine ⟨h.thlen, h.th, by simp [h.wslen], ?_, h.jobs⟩
+  intro u x y hx hy
+  rcases getElem?_snoc_cases _ _ _ _ hx with ⟨hlt, hx'⟩ | ⟨e, rfl⟩
+  · rcases getElem?_snoc_cases _ _ _ _ hy with ⟨_, hy'⟩ | ⟨e, _⟩
+    · exact h.ws u x y hx' hy'
+    · have := h.wslen; omega
+  · rcases getElem?_snoc_cases _ _ _ _ hy with ⟨hlt, _⟩ | ⟨_, rfl⟩
+    · have := h.wslen; omega
+    · exact Or.inl rfl
+
+/-- the job tables change in the same way on both sides -/
+theorem RelC.set_jobs (h : RelC bc th ws jobs a b d) (jobs' d' : List Job)
+    (hv : d'.map Job.view = jobs'.map Job.view)
+    (hn : ∀ j, nilAt jobs j = true → nilAt jobs' j = true) : RelC bc th ws jobs' a b d' := by
+  refine ⟨h.thlen, h.th, h.wslen, ?_, hv⟩
+  intro w x y hx hy
+  rcases h.ws w x y hx hy with e | ⟨j, e1, e2, e3⟩
+  · exact Or.inl e
+  · exact Or.inr ⟨j, e1, e2, hn j e3⟩
+
+
+/-! ### job-table updates respect the view -/
+
+/-- the common shape of `setJob`, `setJobSt`, `startJob` -/
+def modJ (jobs : List Job) (j : Nat) (f : Job → Job) : List Job :=
+  match jobs[j]? with
+  | some jb => jobs.set j (f jb)
+  | none => jobs
+
+theorem setJob_modJ (jobs : List Job) (j : Nat) (st : JS) (sq : Option Nat) :
+    setJob jobs j st sq = modJ jobs j (fun jb => { jb with st := st, seq := sq }) := rfl
+
+theorem setJobSt_modJ (jobs : List Job) (j : Nat) (st : JS) :
+    setJobSt jobs j st = modJ jobs j (fun jb => { jb with st := st }) := rfl
+
+theorem startJob_modJ (jobs : List Job) (j : Nat) :
+    startJob jobs j = modJ jobs j (fun jb => { jb with st := .active, starts := jb.starts + 1 }) := rfl
+
+theorem modJ_getElem? (jobs : List Job) (j : Nat) (f : Job → Job) (i : Nat) :
+    (modJ jobs j f)[i]? = if i = j then jobs[j]?.map f else jobs[i]? := by
+  unfold modJ
+  cases hj : jobs[j]? with
+  | none =>
+    simp only []
+    split
+    · rename_i e; subst e; simp [hj]
+    · rfl
+  | some jb =>
+    simp only [List.getElem?_set]
+    split
+    · rename_i e; subst e; simp [lt_of_getElem? hj]
+    · rename_i e; rw [if_neg (fun h => e h.symm)]
+
+theorem view_getElem? {d jobs : List Job} (h : d.map Job.view = jobs.map Job.view) (i : Nat) :
+    d[i]?.map Job.view = jobs[i]?.map Job.view := by
+  have := congrArg (fun l => l[i]?) h
+  simpa [List.getElem?_map] using this
+
+theorem view_modJ {d jobs : List Job} (h : d.map Job.view = jobs.map Job.view) (j : Nat) (f : Job → Job)
+    (hf : ∀ x y : Job, x.view = y.view → (f x).view = (f y).view) :
+    (modJ d j f).map Job.view = (modJ jobs j f).map Job.view := by
+  apply List.ext_getElem?
+  intro i
+  simp only [List.getElem?_map, modJ_getElem?]
+  split
+  · have := view_getElem? h j
+    cases h1 : d[j]? <;> cases h2 : jobs[j]? <;> simp [h1, h2] at this ⊢
+    exact hf _ _ this
+  · exact view_getElem? h i
+
+/-- an update that the view does not see -/
+theorem view_modJ_same (jobs : List Job) (j : Nat) (f : Job → Job)
+    (hf : ∀ jb, jobs[j]? = some jb → (f jb).view = jb.view) :
+    (modJ jobs j f).map Job.view = jobs.map Job.view := by
+  apply List.ext_getElem?
+  intro i
+  simp only [List.getElem?_map, modJ_getElem?]
+  split
+  · rename_i e; subst e
+    cases h1 : jobs[i]? with
+    | none => rfl
+    | some jb => simp [hf jb h1]
+  · rfl
+
+theorem nilAt_modJ (jobs : List Job) (j : Nat) (f : Job → Job) (hf : ∀ jb, (f jb).isNil = jb.isNil)
+    (i : Nat) : nilAt (modJ jobs j f) i = nilAt jobs i := by
+  unfold nilAt
+  rw [modJ_getElem?]
+  by_cases e : i = j
+  · subst e
+    rw [if_pos rfl]
+    cases jobs[i]? with
+    | none => rfl
+    | some jb => simp [hf]
+  · rw [if_neg e]
+
+theorem nilAt_view {d jobs : List Job} (h : d.map Job.view = jobs.map Job.view) (j : Nat) :
+    nilAt d j = nilAt jobs j := by
+  have := view_getElem? h j
+  unfold nilAt
+  cases h1 : d[j]? <;> cases h2 : jobs[j]? <;> simp [h1, h2, Job.view] at this ⊢
+  exact this.1
+
+theorem nilAt_append (jobs l : List Job) (j : Nat) (h : nilAt jobs j = true) : nilAt (jobs ++ l) j = true := by
+  unfold nilAt at *
+  cases h1 : jobs[j]? with
+  | none => simp [h1] at h
+  | some jb =>
+    rw [List.getElem?_append_left (lt_of_getElem? h1), h1]
+    simpa [h1] using h
+
+theorem RelC.modJ (h : RelC bc th ws jobs a b d) (j : Nat) (f : Job → Job)
+    (hf : ∀ x y : Job, x.view = y.view → (f x).view = (f y).view)
+    (hn : ∀ jb, (f jb).isNil = jb.isNil) : RelC bc th ws (modJ jobs j f) a b (modJ d j f) :=
+  h.set_jobs _ _ (view_modJ h.jobs j f hf) (fun i hi => by rw [nilAt_modJ jobs j f hn]; exact hi)
+
+theorem RelC.setJob (h : RelC bc th ws jobs a b d) (j : Nat) (st : JS) (sq : Option Nat) :
+    RelC bc th ws (setJob jobs j st sq) a b (setJob d j st sq) := by
+  rw [setJob_modJ, setJob_modJ]
+  exact h.modJ j _ (fun x y hxy => by simp [Job.view] at hxy ⊢; exact hxy.1) (fun _ => rfl)
+
+theorem RelC.setJobSt (h : RelC bc th ws jobs a b d) (j : Nat) (st : JS) :
+    RelC bc th ws (setJobSt jobs j st) a b (setJobSt d j st) := by
+  rw [setJobSt_modJ, setJobSt_modJ]
+  exact h.modJ j _ (fun x y hxy => by simp [Job.view] at hxy ⊢; exact hxy.1) (fun _ => rfl)
+
+theorem RelC.startJob (h : RelC bc th ws jobs a b d) (j : Nat) :
+    RelC bc th ws (startJob jobs j) a b (startJob d j) := by
+  rw [startJob_modJ, startJob_modJ]
+  exact h.modJ j _ (fun x y hxy => by simp [Job.view] at hxy ⊢; exact hxy.1) (fun _ => rfl)
+
+theorem RelC.append_jobs (h : RelC bc th ws jobs a b d) (l : List Job) :
+    RelC bc th ws (jobs ++ l) a b (d ++ l) :=
+  h.set_jobs _ _ (by simp [h.jobs]) (fun j hj => nilAt_append jobs l j hj)
+
+
+/-! ### one step of the full model, followed by the restricted one -/
+
+/-- what the sample section of `WaitIdle` writes into the caller's state -/
+def wiVal (s : St) (n0 : Nat) : TS :=
+  if s.running = 0 ∧ s.qsize = 0 then .wiDone .nil n0 else .wiParked n0 s.bc.getWaitCh.2
+
+theorem wiSample_eq (s : St) (t n0 : Nat) (h : s.bc.cur ≠ none) :
+    wiSample s t n0 = { s with th := s.th.set t (wiVal s n0) } := by
+  unfold wiSample wiVal
+  split
+  · rfl
+  · rw [getWaitCh_cur s.bc h]
+
+theorem wsSample_eq (s : St) (t : Nat) (h : s.bc.cur ≠ none) :
+    wsSample s t = { s with th := s.th.set t (.wsCb s.qsize s.running s.bc.getWaitCh.2) } := by
+  unfold wsSample
+  rw [getWaitCh_cur s.bc h]
+
+theorem eager_none (c : St) (h : eagerEvent c = none) :
+    (∀ t, wiEager c t = false) ∧ (∀ w, nilEager c w = false) := by
+  unfold eagerEvent at h
+  split at h
+  · cases h
+  · rename_i h1
+    split at h
+    · cases h
+    · rename_i h2
+      rw [List.find?_eq_none] at h1 h2
+      constructor
+      · intro t
+        by_cases ht : t < c.th.length
+        · simpa using h1 t (by simpa using ht)
+        · unfold wiEager; rw [List.getElem?_eq_none (by omega)]
+      · intro w
+        by_cases hw : w < c.ws.length
+        · simpa using h2 w (by simpa using hw)
+        · unfold nilEager; rw [List.getElem?_eq_none (by omega)]
+
+theorem red_step_a (s : St) (a : List TS) (b : List WSt) (d : List Job) (e : Ev) (s' : St)
+    (hR : RelC s.bc s.th s.ws s.jobs a b d) (hst : step s e = some s')
+    (he : match e with
+      | .retNew _ | .invEnq _ _ | .retEnq _ _ _ | .invWI _ | .retWI _ _ | .invWS _ _ | .cbWS _ _ _ _
+      | .wsCtx _ | .retWS _ _ | .envCancel _ | .envErr _ _ | .jobOut _ _ => True
+      | _ => False) :
+    ∃ a' b' d', RelC s'.bc s'.th s'.ws s'.jobs a' b' d' ∧
+      step (s.with3 a b d) e = some (s'.with3 a' b' d') := by
+  cases e <;> simp only at he <;> simp only [step] at hst
+  case retNew t =>
+    split at hst
+    · rename_i hx
+      cases hst
+      obtain ⟨y, hy, hxy⟩ := hR.th_get hx
+      cases hxy.eq_of_not_wi rfl
+      exact ⟨_, b, d, hR.set_th_same t .finished, by simp [step, hy]⟩
+    · cases hst
+  case invEnq t js =>
+    split at hst
+    · rename_i hg
+      cases hst
+      refine ⟨_, b, _, (hR.append_jobs (newJobs t js)).push_th (.enqInv (js.map (·.1))), ?_⟩
+      have h1 : d.length = s.jobs.length := by simpa using congrArg List.length hR.jobs
+      simp only [step, h1, hR.thlen]
+      rw [if_pos hg]
+    · cases hst
+  case retEnq t q r =>
+    split at hst
+    · rename_i hx
+      split at hst
+      · cases hst
+        obtain ⟨y, hy, hxy⟩ := hR.th_get hx
+        cases hxy.eq_of_not_wi rfl
+        exact ⟨_, b, d, hR.set_th_same t .finished, by simp_all [step]⟩
+      · cases hst
+    · cases hst
+  case invWI t =>
+    split at hst
+    · rename_i hg
+      cases hst
+      refine ⟨_, b, d, hR.push_th (.wiInv s.nseq), ?_⟩
+      simp only [step, hR.thlen]
+      rw [if_pos hg]
+    · cases hst
+  case retWI t r =>
+    split at hst
+    · rename_i hx
+      split at hst
+      · cases hst
+        obtain ⟨y, hy, hxy⟩ := hR.th_get hx
+        cases hxy.eq_of_not_wi rfl
+        exact ⟨_, b, d, hR.set_th_same t .finished, by simp_all [step]⟩
+      · cases hst
+    · cases hst
+  case invWS t nilcb =>
+    split at hst
+    · rename_i hg
+      cases hst
+      refine ⟨_, b, d, hR.push_th _, ?_⟩
+      simp only [step, hR.thlen]
+      rw [if_pos hg]
+    · cases hst
+  case cbWS t q r act =>
+    split at hst
+    · rename_i hx
+      split at hst
+      · cases hst
+        obtain ⟨y, hy, hxy⟩ := hR.th_get hx
+        cases hxy.eq_of_not_wi rfl
+        exact ⟨_, b, d, hR.set_th_same t _, by simp_all [step]⟩
+      · cases hst
+    · cases hst
+  case wsCtx t =>
+    split at hst
+    · rename_i hx
+      split at hst
+      · cases hst
+        obtain ⟨y, hy, hxy⟩ := hR.th_get hx
+        cases hxy.eq_of_not_wi rfl
+        exact ⟨_, b, d, hR.set_th_same t _, by simp_all [step]⟩
+      · cases hst
+    · cases hst
+  case retWS t r =>
+    split at hst
+    · rename_i hx
+      split at hst
+      · cases hst
+        obtain ⟨y, hy, hxy⟩ := hR.th_get hx
+        cases hxy.eq_of_not_wi rfl
+        exact ⟨_, b, d, hR.set_th_same t .finished, by simp_all [step]⟩
+      · cases hst
+    · cases hst
+  case envCancel t =>
+    split at hst
+    · rename_i hg
+      cases hst
+      exact ⟨a, b, d, hR, by simp only [step, hR.thlen]; rw [if_pos hg]⟩
+    · cases hst
+  case envErr t m =>
+    split at hst
+    · rename_i hg
+      cases hst
+      exact ⟨a, b, d, hR, by simp only [step, hR.thlen]; rw [if_pos hg]⟩
+    · cases hst
+  case jobOut w j =>
+    split at hst
+    · rename_i hx
+      split at hst
+      · cases hst
+        obtain ⟨y, hy, hxy⟩ := hR.ws_get hx
+        cases hxy.eq_of_not_hasJob rfl
+        exact ⟨a, _, _, (hR.set_ws_same w .afterJob).setJobSt j .finished, by simp_all [step]⟩
+      · cases hst
+    · cases hst
+
+
+theorem place_with3 (s : St) (a : List TS) (b : List WSt) (d : List Job) (j : Nat) :
+    ∃ b' d', place (s.with3 a b d) j = (place s j).with3 a b' d' ∧
+      (RelC s.bc s.th s.ws s.jobs a b d →
+        RelC (place s j).bc (place s j).th (place s j).ws (place s j).jobs a b' d') := by
+  by_cases h : hasRoom s = true
+  · refine ⟨b ++ [.hasJob j], setJob d j .assigned (some s.nseq), ?_, ?_⟩
+    · unfold place
+      rw [if_pos h, if_pos (show hasRoom (s.with3 a b d) = true from h)]
+    · intro hR
+      unfold place
+      rw [if_pos h]
+      exact (hR.push_ws _).setJob j _ _
+  · refine ⟨b, setJob d j .queued (some s.nseq), ?_, ?_⟩
+    · unfold place
+      rw [if_neg h, if_neg (show ¬ hasRoom (s.with3 a b d) = true from h)]
+    · intro hR
+      unfold place
+      rw [if_neg h]
+      exact hR.setJob j _ _
+
+theorem fold_place_with3 (a : List TS) (js : List Nat) : ∀ (s : St) (b : List WSt) (d : List Job),
+    ∃ b' d', js.foldl place (s.with3 a b d) = (js.foldl place s).with3 a b' d' ∧
+      (RelC s.bc s.th s.ws s.jobs a b d →
+        RelC (js.foldl place s).bc (js.foldl place s).th (js.foldl place s).ws (js.foldl place s).jobs
+          a b' d') := by
+  induction js with
+  | nil => intro s b d; exact ⟨b, d, rfl, id⟩
+  | cons j js ih =>
+    intro s b d
+    obtain ⟨b1, d1, e1, r1⟩ := place_with3 s a b d j
+    obtain ⟨b2, d2, e2, r2⟩ := ih (place s j) b1 d1
+    refine ⟨b2, d2, ?_, fun hR => r2 (r1 hR)⟩
+    simp only [List.foldl_cons]
+    rw [e1, e2]
+
+/-- the conclusion of the step lemmas: the restricted side either stays (the full run catches up with
+an eager event) or takes the same event -/
+def StepTo (s : St) (a : List TS) (b : List WSt) (d : List Job) (e : Ev) (s' : St) : Prop :=
+  ∃ a' b' d', RelC s'.bc s'.th s'.ws s'.jobs a' b' d' ∧
+    ((e.obs = none ∧ s'.with3 a' b' d' = s.with3 a b d) ∨
+      step (s.with3 a b d) e = some (s'.with3 a' b' d'))
+
+theorem red_invNew (s : St) (a : List TS) (b : List WSt) (d : List Job) (t : Nat) (L : Int)
+    (js : List (Nat × Bool)) (s' : St) (hs : Inv s)
+    (hR : RelC s.bc s.th s.ws s.jobs a b d) (hst : step s (.invNew t L js) = some s') :
+    StepTo s a b d (.invNew t L js) s' := by
+  have hcr : s.created = false := by
+    simp only [step] at hst
+    split at hst
+    · rename_i hg; exact hg.1
+    · cases hst
+  have e0 := hs.cre hcr
+  subst e0
+  have ha : a = [] := List.eq_nil_of_length_eq_zero (by simpa using hR.thlen)
+  have hb : b = [] := List.eq_nil_of_length_eq_zero (by simpa using hR.wslen)
+  have hd : d = [] := List.eq_nil_of_length_eq_zero (by simpa using congrArg List.length hR.jobs)
+  subst ha hb hd
+  exact ⟨s'.th, s'.ws, s'.jobs, RelC.refl _ _ _ _, Or.inr hst⟩
+
+theorem red_enqCS (s : St) (a : List TS) (b : List WSt) (d : List Job) (t : Nat) (s' : St)
+    (hR : RelC s.bc s.th s.ws s.jobs a b d) (hst : step s (.enqCS t) = some s') :
+    StepTo s a b d (.enqCS t) s' := by
+  simp only [step] at hst
+  split at hst
+  · rename_i js hx
+    cases hst
+    obtain ⟨y, hy, hxy⟩ := hR.th_get hx
+    cases hxy.eq_of_not_wi rfl
+    obtain ⟨b', d', e1, r1⟩ := fold_place_with3 a js s b d
+    have r2 := r1 hR
+    refine ⟨a.set t (.enqDone (js.foldl place s).qsize (js.foldl place s).running), b', d', ?_, Or.inr ?_⟩
+    · refine RelC.set_th_same (RelC.mono_bc r2 ?_) t _
+      intro ch hch
+      dsimp only
+      split
+      · exact hch
+      · exact bcast_closed_mono _ ch hch
+    · simp only [step, hy]
+      rw [e1]
+  · cases hst
+
+theorem red_jobIn (s : St) (a : List TS) (b : List WSt) (d : List Job) (w j : Nat) (s' : St)
+    (hR : RelC s.bc s.th s.ws s.jobs a b d) (hst : step s (.jobIn w j) = some s') :
+    StepTo s a b d (.jobIn w j) s' := by
+  simp only [step] at hst
+  split at hst
+  · rename_i j' jb hx hj
+    split at hst
+    · rename_i hg
+      cases hst
+      obtain ⟨rfl, hnil⟩ := hg
+      have hna : nilAt s.jobs j = false := by unfold nilAt; rw [hj]; exact hnil
+      obtain ⟨y, hy, hxy⟩ := hR.ws_get hx
+      have : y = .hasJob j := by
+        rcases hxy with rfl | ⟨j2, e1, _, e3⟩
+        · rfl
+        · cases e1; rw [hna] at e3; cases e3
+      subst this
+      have hnd : nilAt d j = false := by rw [nilAt_view hR.jobs]; exact hna
+      have hlen : d.length = s.jobs.length := by simpa using congrArg List.length hR.jobs
+      obtain ⟨jb', hj'⟩ := getElem?_of_len hlen hj
+      have hnil' : jb'.isNil = false := by unfold nilAt at hnd; rw [hj'] at hnd; exact hnd
+      exact ⟨a, _, _, (hR.set_ws_same w (.inJob j)).startJob j, Or.inr (by simp [step, hy, hj', hnil'])⟩
+    · cases hst
+  · cases hst
+
+theorem red_skipNil (s : St) (a : List TS) (b : List WSt) (d : List Job) (w : Nat) (s' : St)
+    (hs : Inv s) (hn : eagerEvent (s.with3 a b d) = none)
+    (hR : RelC s.bc s.th s.ws s.jobs a b d) (hst : step s (.skipNil w) = some s') :
+    StepTo s a b d (.skipNil w) s' := by
+  simp only [step] at hst
+  split at hst
+  · rename_i j hx
+    split at hst
+    · rename_i jb hj
+      split at hst
+      · rename_i hnil
+        cases hst
+        have hna : nilAt s.jobs j = true := by unfold nilAt; rw [hj]; exact hnil
+        obtain ⟨y, hy, hxy⟩ := hR.ws_get hx
+        have : y = .afterJob := by
+          rcases hxy with rfl | ⟨j2, _, e2, _⟩
+          · have h1 := (eager_none _ hn).2 w
+            have h2 : nilEager (s.with3 a b d) w = nilAt d j := by
+              unfold nilEager nilAt
+              simp only [hy]
+              rfl
+            rw [h2, nilAt_view hR.jobs, hna] at h1
+            cases h1
+          · exact e2
+        subst this
+        obtain ⟨jb0, hj0, hst0⟩ := hs.hasJ w j hx
+        rw [hj] at hj0; cases hj0
+        refine ⟨a, b, d, ?_, Or.inl ⟨rfl, rfl⟩⟩
+        refine (hR.set_ws_left w .afterJob .afterJob hy (Or.inl rfl)).set_jobs _ d ?_ ?_
+        · rw [hR.jobs, setJobSt_modJ, view_modJ_same]
+          intro jb1 h1
+          rw [hj] at h1; cases h1
+          show (jb.isNil, JS.finished == JS.active) = (jb.isNil, jb.st == JS.active)
+          rw [hst0]; rfl
+        · intro i hi
+          show nilAt (setJobSt s.jobs j .finished) i = true
+          rw [setJobSt_modJ, nilAt_modJ]
+          · exact hi
+          · intro _; rfl
+      · cases hst
+    · cases hst
+  · cases hst
+
+theorem red_popCS (s : St) (a : List TS) (b : List WSt) (d : List Job) (w : Nat) (s' : St)
+    (hR : RelC s.bc s.th s.ws s.jobs a b d) (hst : step s (.popCS w) = some s') :
+    StepTo s a b d (.popCS w) s' := by
+  simp only [step] at hst
+  split at hst
+  · rename_i hx
+    obtain ⟨y, hy, hxy⟩ := hR.ws_get hx
+    cases hxy.eq_of_not_hasJob rfl
+    split at hst
+    · rename_i hq
+      cases hst
+      exact ⟨a, _, d, (hR.set_ws_same w .retired).mono_bc (bcast_closed_mono _),
+        Or.inr (by simp [step, hy, hq])⟩
+    · rename_i j rest hq
+      cases hst
+      exact ⟨a, _, _, (hR.set_ws_same w (.hasJob j)).setJobSt j .assigned,
+        Or.inr (by simp [step, hy, hq])⟩
+  · cases hst
+
+
+theorem getWaitCh_open (bc : Bcast) (hb : bc.cur ≠ none) (ch : Nat) (hlt : ch < bc.next)
+    (ho : bc.closed ch = false) : bc.getWaitCh.2 = ch := by
+  unfold Bcast.getWaitCh
+  unfold Bcast.closed at ho
+  cases hc : bc.cur with
+  | none => exact absurd hc hb
+  | some c0 =>
+    simp [hc, hlt] at ho
+    simp [ho]
+
+theorem red_wiCS (s : St) (a : List TS) (b : List WSt) (d : List Job) (t : Nat) (s' : St)
+    (hs : Inv s) (hc : Inv (s.with3 a b d))
+    (hR : RelC s.bc s.th s.ws s.jobs a b d) (hst : step s (.wiCS t) = some s') :
+    StepTo s a b d (.wiCS t) s' := by
+  have hb : s.bc.cur ≠ none := hs.bccur
+  -- the caller's state on the full side, and what the step does to it
+  have key : ∃ n0 x, s.th[t]? = some x ∧ s' = { s with th := s.th.set t (wiVal s n0) } ∧
+      (x = .wiInv n0 ∨ ∃ ch, x = .wiParked n0 ch ∧ s.bc.closed ch = true) := by
+    simp only [step] at hst
+    split at hst
+    · rename_i n0 hx
+      cases hst
+      exact ⟨n0, _, hx, wiSample_eq s t n0 hb, Or.inl rfl⟩
+    · rename_i n0 ch hx
+      split at hst
+      · rename_i hcl
+        cases hst
+        exact ⟨n0, _, hx, wiSample_eq s t n0 hb, Or.inr ⟨ch, rfl, hcl⟩⟩
+      · cases hst
+    · cases hst
+  obtain ⟨n0, x, hx, rfl, hxs⟩ := key
+  obtain ⟨y, hy, hxy⟩ := hR.th_get hx
+  -- the restricted side takes the same event whenever it is enabled there
+  have take : (y = .wiInv n0 ∨ ∃ ch', y = .wiParked n0 ch' ∧ s.bc.closed ch' = true) →
+      StepTo s a b d (.wiCS t) { s with th := s.th.set t (wiVal s n0) } := by
+    intro hy'
+    refine ⟨a.set t (wiVal s n0), b, d, hR.set_th_same t _, Or.inr ?_⟩
+    have e : wiSample (s.with3 a b d) t n0 = { s.with3 a b d with th := a.set t (wiVal s n0) } :=
+      wiSample_eq (s.with3 a b d) t n0 hb
+    rcases hy' with rfl | ⟨ch', rfl, hcl⟩
+    · simp only [step, hy]; rw [e]
+    · simp only [step, hy]
+      rw [if_pos hcl, e]
+  rcases hxy with rfl | ⟨n1, ch', rfl, hx1⟩
+  · exact take hxs
+  · have hn : n1 = n0 := by
+      rcases hxs with rfl | ⟨ch, rfl, _⟩ <;> rcases hx1 with h | ⟨ch2, h, _⟩ <;> cases h <;> rfl
+    subst hn
+    by_cases hcl : s.bc.closed ch' = true
+    · exact take (Or.inr ⟨ch', rfl, hcl⟩)
+    · -- the restricted side is already parked on the current channel: the full side catches up
+      have hcl' : s.bc.closed ch' = false := by simpa using hcl
+      have hti := hc.th t _ hy
+      simp only [TSInv] at hti
+      obtain ⟨_, hlt, hbusy⟩ := hti
+      have hv : wiVal s n1 = .wiParked n1 ch' := by
+        unfold wiVal
+        rw [if_neg (show ¬(s.running = 0 ∧ s.qsize = 0) from hbusy hcl'), getWaitCh_open s.bc hb ch' hlt hcl']
+      rw [hv]
+      exact ⟨a, b, d, hR.set_th_left t _ _ hy (Or.inl rfl), Or.inl ⟨rfl, rfl⟩⟩
+
+theorem red_wiCtx (s : St) (a : List TS) (b : List WSt) (d : List Job) (t : Nat) (s' : St)
+    (hR : RelC s.bc s.th s.ws s.jobs a b d) (hst : step s (.wiCtx t) = some s') :
+    StepTo s a b d (.wiCtx t) s' := by
+  simp only [step] at hst
+  split at hst
+  · rename_i n0 ch hx
+    split at hst
+    · rename_i hg
+      cases hst
+      obtain ⟨y, hy, hxy⟩ := hR.th_get hx
+      obtain ⟨ch', rfl⟩ := hxy.parked
+      exact ⟨_, b, d, hR.set_th_same t _, Or.inr (by simp only [step, hy]; rw [if_pos hg])⟩
+    · cases hst
+  · cases hst
+
+theorem red_wiErr (s : St) (a : List TS) (b : List WSt) (d : List Job) (t : Nat) (s' : St)
+    (hR : RelC s.bc s.th s.ws s.jobs a b d) (hst : step s (.wiErr t) = some s') :
+    StepTo s a b d (.wiErr t) s' := by
+  simp only [step] at hst
+  split at hst
+  · rename_i n0 ch hx
+    obtain ⟨y, hy, hxy⟩ := hR.th_get hx
+    obtain ⟨ch', rfl⟩ := hxy.parked
+    split at hst
+    · rename_i hm
+      cases hst
+      exact ⟨_, b, d, hR.set_th_same t _, Or.inr (by simp [step, hy, hm])⟩
+    · rename_i hm
+      cases hst
+      exact ⟨_, b, d, hR.set_th_same t _, Or.inr (by simp [step, hy, hm])⟩
+    · rename_i hm
+      cases hst
+      exact ⟨_, b, d, hR.set_th_same t _, Or.inr (by simp [step, hy, hm])⟩
+    · cases hst
+  · cases hst
+
+theorem red_wsCS (s : St) (a : List TS) (b : List WSt) (d : List Job) (t : Nat) (s' : St)
+    (hs : Inv s) (hR : RelC s.bc s.th s.ws s.jobs a b d) (hst : step s (.wsCS t) = some s') :
+    StepTo s a b d (.wsCS t) s' := by
+  have hb : s.bc.cur ≠ none := hs.bccur
+  have e : wsSample (s.with3 a b d) t =
+      { s.with3 a b d with th := a.set t (.wsCb s.qsize s.running s.bc.getWaitCh.2) } :=
+    wsSample_eq (s.with3 a b d) t hb
+  simp only [step] at hst
+  split at hst
+  · rename_i hx
+    cases hst
+    obtain ⟨y, hy, hxy⟩ := hR.th_get hx
+    cases hxy.eq_of_not_wi rfl
+    rw [wsSample_eq s t hb]
+    refine ⟨_, b, d, hR.set_th_same t _, Or.inr ?_⟩
+    simp only [step, hy]; rw [e]
+  · rename_i q r ch hx
+    split at hst
+    · rename_i hcl
+      cases hst
+      obtain ⟨y, hy, hxy⟩ := hR.th_get hx
+      cases hxy.eq_of_not_wi rfl
+      rw [wsSample_eq s t hb]
+      refine ⟨_, b, d, hR.set_th_same t _, Or.inr ?_⟩
+      simp only [step, hy]
+      rw [if_pos hcl, e]
+    · cases hst
+  · cases hst
+
+theorem activeJobs_view (s c : St) (h : c.jobs.map Job.view = s.jobs.map Job.view) :
+    activeJobs c = activeJobs s := by
+  unfold activeJobs
+  have hl : c.jobs.length = s.jobs.length := by simpa using congrArg List.length h
+  rw [hl]
+  apply List.filter_congr
+  intro j _
+  have := view_getElem? h j
+  cases h1 : c.jobs[j]? <;> cases h2 : s.jobs[j]? <;> simp [h1, h2, Job.view] at this ⊢
+  exact this.2
+
+theorem red_quiesce (s : St) (a : List TS) (b : List WSt) (d : List Job) (B A : List Nat) (s' : St)
+    (hR : RelC s.bc s.th s.ws s.jobs a b d) (hst : step s (.quiesce B A) = some s') :
+    StepTo s a b d (.quiesce B A) s' := by
+  simp only [step] at hst
+  split at hst
+  · rename_i hg
+    cases hst
+    obtain ⟨hq, hB, hA⟩ := hg
+    have ha : a = s.th := by
+      apply List.ext_getElem?
+      intro t
+      by_cases ht : t < s.th.length
+      · have hx : s.th[t]? = some s.th[t] := by simp
+        obtain ⟨y, hy, hxy⟩ := hR.th_get hx
+        rw [hy, hx]
+        have hqt := quiescent_th s hq t _ hx
+        congr 1
+        generalize s.th[t] = x at hxy hqt
+        cases x <;> simp [TS.quiet] at hqt
+        case wiParked n0 ch => exact hxy.eq_of_open hqt.1.1
+        all_goals exact hxy.eq_of_not_wi rfl
+      · have hl := hR.thlen
+        rw [List.getElem?_eq_none (by omega), List.getElem?_eq_none (by omega)]
+    have hb : b = s.ws := by
+      apply List.ext_getElem?
+      intro w
+      by_cases hw : w < s.ws.length
+      · have hx : s.ws[w]? = some s.ws[w] := by simp
+        obtain ⟨y, hy, hxy⟩ := hR.ws_get hx
+        rw [hy, hx]
+        congr 1
+        rcases quiescent_ws s hq w _ hx with ⟨j, e⟩ | e <;> rw [e] at hxy ⊢ <;>
+          exact hxy.eq_of_not_hasJob rfl
+      · have hl := hR.wslen
+        rw [List.getElem?_eq_none (by omega), List.getElem?_eq_none (by omega)]
+    subst ha hb
+    refine ⟨s.th, s.ws, d, hR, Or.inr ?_⟩
+    have h1 : quiescent (s.with3 s.th s.ws d) = quiescent s := rfl
+    have h2 : pendingIds (s.with3 s.th s.ws d) = pendingIds s := rfl
+    have h3 : activeJobs (s.with3 s.th s.ws d) = activeJobs s := activeJobs_view s _ hR.jobs
+    simp only [step, h1, h2, h3]
+    rw [if_pos ⟨hq, hB, hA⟩]
+  · cases hst
+
+
+/-- **one step of the full model is matched by the restricted model** (from a state without eager
+event): it takes the same event, or — for an eager event it has already taken — stays -/
+theorem red_step (s : St) (a : List TS) (b : List WSt) (d : List Job) (e : Ev) (s' : St)
+    (hs : Inv s) (hc : Inv (s.with3 a b d)) (hn : eagerEvent (s.with3 a b d) = none)
+    (hR : RelC s.bc s.th s.ws s.jobs a b d) (hst : step s e = some s') : StepTo s a b d e s' := by
+  have ha : ∀ (_ : match e with
+      | .retNew _ | .invEnq _ _ | .retEnq _ _ _ | .invWI _ | .retWI _ _ | .invWS _ _ | .cbWS _ _ _ _
+      | .wsCtx _ | .retWS _ _ | .envCancel _ | .envErr _ _ | .jobOut _ _ => True
+      | _ => False), StepTo s a b d e s' := by
+    intro he
+    obtain ⟨a', b', d', h1, h2⟩ := red_step_a s a b d e s' hR hst he
+    exact ⟨a', b', d', h1, Or.inr h2⟩
+  cases e
+  case invNew t L js => exact red_invNew s a b d t L js s' hs hR hst
+  case enqCS t => exact red_enqCS s a b d t s' hR hst
+  case jobIn w j => exact red_jobIn s a b d w j s' hR hst
+  case skipNil w => exact red_skipNil s a b d w s' hs hn hR hst
+  case popCS w => exact red_popCS s a b d w s' hR hst
+  case wiCS t => exact red_wiCS s a b d t s' hs hc hR hst
+  case wiCtx t => exact red_wiCtx s a b d t s' hR hst
+  case wiErr t => exact red_wiErr s a b d t s' hR hst
+  case wsCS t => exact red_wsCS s a b d t s' hs hR hst
+  case quiesce B A => exact red_quiesce s a b d B A s' hR hst
+  all_goals exact ha trivial
+
+/-! ### running the eager events of the restricted side -/
+
+def wiE (c : St) : TS → Bool
+  | .wiInv _ => !(c.running == 0 && c.qsize == 0)
+  | .wiParked _ ch => !(c.running == 0 && c.qsize == 0) && c.bc.closed ch
+  | _ => false
+
+def nilE (jobs : List Job) : WSt → Bool
+  | .hasJob j => nilAt jobs j
+  | _ => false
+
+theorem wiEager_eq (c : St) (t : Nat) :
+    wiEager c t = match c.th[t]? with
+      | some x => wiE c x
+      | none => false := by
+  unfold wiEager
+  cases c.th[t]? with
+  | none => rfl
+  | some x => cases x <;> rfl
+
+theorem nilEager_eq (c : St) (w : Nat) :
+    nilEager c w = match c.ws[w]? with
+      | some x => nilE c.jobs x
+      | none => false := by
+  unfold nilEager
+  cases c.ws[w]? with
+  | none => rfl
+  | some x => cases x <;> rfl
+
+/-- number of eager events -/
+def mu (c : St) : Nat := c.th.countP (wiE c) + c.ws.countP (nilE c.jobs)
+
+theorem TR.reseat {x0 x : TS} {n0 : Nat} (h : TR bc x0 x)
+    (hx : x = .wiInv n0 ∨ ∃ ch, x = .wiParked n0 ch ∧ bc.closed ch = true) (ch' : Nat) :
+    TR bc x0 (.wiParked n0 ch') := by
+  rcases h with rfl | ⟨n1, ch1, rfl, h1⟩
+  · exact Or.inr ⟨n0, ch', rfl, hx⟩
+  · have : n1 = n0 := by
+      rcases hx with h | ⟨ch, h, _⟩ <;> cases h; rfl
+    subst this
+    exact Or.inr ⟨n1, ch', rfl, h1⟩
+
+/-- the eager event of a state is enabled and internal, removes one eager event, and keeps the
+restricted side related to every full-side state it was related to -/
+theorem eager_step (c : St) (hc : Inv c) (e : Ev) (he : eagerEvent c = some e) :
+    ∃ a' b' d', step c e = some (c.with3 a' b' d') ∧ e.obs = none ∧ mu (c.with3 a' b' d') < mu c ∧
+      (∀ th ws jobs, RelC c.bc th ws jobs c.th c.ws c.jobs → RelC c.bc th ws jobs a' b' d') := by
+  have hb : c.bc.cur ≠ none := hc.bccur
+  unfold eagerEvent at he
+  split at he
+  · rename_i t hf
+    cases he
+    have ht := List.find?_some hf
+    rw [wiEager_eq] at ht
+    split at ht
+    · rename_i x hx
+      -- the caller is about to sample a busy queue
+      have key : ∃ n0, (x = .wiInv n0 ∨ ∃ ch, x = .wiParked n0 ch ∧ c.bc.closed ch = true) ∧
+          ¬ (c.running = 0 ∧ c.qsize = 0) := by
+        cases x <;> simp [wiE] at ht
+        case wiInv n0 => exact ⟨n0, Or.inl rfl, by omega⟩
+        case wiParked n0 ch => exact ⟨n0, Or.inr ⟨ch, rfl, ht.2⟩, by omega⟩
+      obtain ⟨n0, hx0, hbusy⟩ := key
+      obtain ⟨_, _, hopen⟩ := closed_same_of_cur c hc.toJInv
+      have hv : wiVal c n0 = .wiParked n0 c.bc.getWaitCh.2 := by unfold wiVal; rw [if_neg hbusy]
+      have hstep : step c (.wiCS t) = some (c.with3 (c.th.set t (.wiParked n0 c.bc.getWaitCh.2)) c.ws c.jobs) := by
+        rcases hx0 with rfl | ⟨ch, rfl, hcl⟩
+        · simp only [step, hx]; rw [wiSample_eq c t n0 hb, hv]
+        · simp only [step, hx]; rw [if_pos hcl, wiSample_eq c t n0 hb, hv]
+      refine ⟨_, _, _, hstep, rfl, ?_, ?_⟩
+      · have h1 := countP_set (wiE c) c.th t x (.wiParked n0 c.bc.getWaitCh.2) hx
+        have h2 : wiE c (.wiParked n0 c.bc.getWaitCh.2) = false := by simp [wiE, hopen]
+        rw [ht, h2] at h1
+        show (c.th.set t (.wiParked n0 c.bc.getWaitCh.2)).countP (wiE c) + c.ws.countP (nilE c.jobs) <
+          c.th.countP (wiE c) + c.ws.countP (nilE c.jobs)
+        simp at h1
+        omega
+      · intro th ws jobs hR
+        have hlen := hR.thlen
+        obtain ⟨x0, hx0'⟩ := getElem?_of_len hlen.symm hx
+        have := hR.set_th t x0 (.wiParked n0 c.bc.getWaitCh.2) ((hR.th t x0 x hx0' hx).reseat hx0 _)
+        rwa [set_of_getElem? hx0'] at this
+    · cases ht
+  · rename_i hf
+    split at he
+    · rename_i w hf2
+      cases he
+      have hw := List.find?_some hf2
+      rw [nilEager_eq] at hw
+      split at hw
+      · rename_i x hx
+        have key : ∃ j, x = .hasJob j ∧ nilAt c.jobs j = true := by
+          cases x <;> simp [nilE] at hw
+          exact ⟨_, rfl, hw⟩
+        obtain ⟨j, rfl, hnil⟩ := key
+        obtain ⟨jb, hj, hst0⟩ := hc.hasJ w j hx
+        have hjn : jb.isNil = true := by unfold nilAt at hnil; rw [hj] at hnil; exact hnil
+        have hstep : step c (.skipNil w) =
+            some (c.with3 c.th (c.ws.set w .afterJob) (setJobSt c.jobs j .finished)) := by
+          simp only [step, hx, hj]; rw [if_pos hjn]
+        have hview : (setJobSt c.jobs j .finished).map Job.view = c.jobs.map Job.view := by
+          rw [setJobSt_modJ, view_modJ_same]
+          intro jb1 h1
+          rw [hj] at h1; cases h1
+          show (jb.isNil, JS.finished == JS.active) = (jb.isNil, jb.st == JS.active)
+          rw [hst0]; rfl
+        refine ⟨_, _, _, hstep, rfl, ?_, ?_⟩
+        · have hfun : nilE (setJobSt c.jobs j .finished) = nilE c.jobs := by
+            funext y
+            cases y <;> simp only [nilE]
+            exact nilAt_view hview _
+          have h1 := countP_set (nilE c.jobs) c.ws w (.hasJob j) .afterJob hx
+          show c.th.countP (wiE c) + (c.ws.set w .afterJob).countP (nilE (setJobSt c.jobs j .finished)) <
+            c.th.countP (wiE c) + c.ws.countP (nilE c.jobs)
+          rw [hfun]
+          simp [nilE, hnil] at h1
+          omega
+        · intro th ws jobs hR
+          have hlen := hR.wslen
+          obtain ⟨x0, hx0'⟩ := getElem?_of_len hlen.symm hx
+          have hx0 : x0 = .hasJob j := by
+            rcases hR.ws w x0 _ hx0' hx with h | ⟨_, _, h, _⟩
+            · exact h
+            · cases h
+          subst hx0
+          have hnj : nilAt jobs j = true := by rw [← nilAt_view hR.jobs]; exact hnil
+          have := hR.set_ws w (.hasJob j) .afterJob (Or.inr ⟨j, rfl, rfl, hnj⟩)
+          rw [set_of_getElem? hx0'] at this
+          exact this.set_jobs jobs _ (by rw [hview]; exact hR.jobs) (fun _ h => h)
+      · cases hw
+    · cases he
+
+theorem restrict_step (c : St) (e : Ev) (c' : St) (hst : step c e = some c')
+    (hcd : e.obs = none → e ∈ cands c) : model.restrict.step c e = some c' := by
+  show (if (e.obs).isNone = true ∧ e ∉ cands c then none else step c e) = some c'
+  rw [if_neg]
+  · exact hst
+  · rintro ⟨h1, h2⟩
+    exact h2 (hcd (Option.isNone_iff_eq_none.mp h1))
+
+/-- the restricted model runs its eager events until none is left -/
+theorem normalize : ∀ (n : Nat) (c : St), Inv c → mu c ≤ n →
+    ∃ es a' b' d', model.restrict.run c es = some (c.with3 a' b' d') ∧ es.filterMap Ev.obs = [] ∧
+      eagerEvent (c.with3 a' b' d') = none ∧ Inv (c.with3 a' b' d') ∧
+      (∀ th ws jobs, RelC c.bc th ws jobs c.th c.ws c.jobs → RelC c.bc th ws jobs a' b' d') := by
+  intro n
+  induction n with
+  | zero =>
+    intro c hc hm
+    cases he : eagerEvent c with
+    | none => exact ⟨[], c.th, c.ws, c.jobs, rfl, rfl, he, hc, fun _ _ _ h => h⟩
+    | some e =>
+      obtain ⟨_, _, _, _, _, hlt, _⟩ := eager_step c hc e he
+      omega
+  | succ n ih =>
+    intro c hc hm
+    cases he : eagerEvent c with
+    | none => exact ⟨[], c.th, c.ws, c.jobs, rfl, rfl, he, hc, fun _ _ _ h => h⟩
+    | some e =>
+      obtain ⟨a1, b1, d1, hstep, hobs, hlt, hrel⟩ := eager_step c hc e he
+      have hc1 := step_inv c e _ hc hstep
+      obtain ⟨es, a2, b2, d2, hrun, hes, hnone, hinv, hrel2⟩ := ih (c.with3 a1 b1 d1) hc1 (by omega)
+      refine ⟨e :: es, a2, b2, d2, ?_, ?_, hnone, hinv, fun th ws jobs h => hrel2 th ws jobs (hrel th ws jobs h)⟩
+      · have : model.restrict.step c e = some (c.with3 a1 b1 d1) :=
+          restrict_step c e _ hstep (fun _ => by simp [cands, he])
+        simp only [OLTS.run, this, Option.bind_some]
+        exact hrun
+      · simp only [List.filterMap_cons, hobs]
+        exact hes
+
+/-- **forward simulation**: a run of the full model from a state related to a restricted-side state
+without eager event is matched by a run of the restricted model with the same observables -/
+theorem red_run (es : List Ev) : ∀ (s : St) (a : List TS) (b : List WSt) (d : List Job) (s' : St),
+    Inv s → Inv (s.with3 a b d) → eagerEvent (s.with3 a b d) = none →
+    RelC s.bc s.th s.ws s.jobs a b d → model.run s es = some s' →
+    ∃ es' c', model.restrict.run (s.with3 a b d) es' = some c' ∧
+      es'.filterMap Ev.obs = es.filterMap Ev.obs := by
+  induction es with
+  | nil => intro s a b d s' _ _ _ _ _; exact ⟨[], _, rfl, rfl⟩
+  | cons e es ih =>
+    intro s a b d s' hs hc hn hR hrun
+    simp only [OLTS.run] at hrun
+    cases hst : model.step s e with
+    | none => simp [hst] at hrun
+    | some s1 =>
+      simp only [hst, Option.bind_some] at hrun
+      have hst' : step s e = some s1 := hst
+      have hs1 := step_inv s e s1 hs hst'
+      obtain ⟨a1, b1, d1, hR1, hcase⟩ := red_step s a b d e s1 hs hc hn hR hst'
+      -- the restricted side after its (possibly empty) answer
+      have hmove : ∃ pre, model.restrict.run (s.with3 a b d) pre = some (s1.with3 a1 b1 d1) ∧
+          pre.filterMap Ev.obs = [e].filterMap Ev.obs ∧ Inv (s1.with3 a1 b1 d1) := by
+        rcases hcase with ⟨hobs, heq⟩ | hstep
+        · exact ⟨[], by rw [heq]; rfl, by simp [hobs], by rw [heq]; exact hc⟩
+        · refine ⟨[e], ?_, rfl, step_inv _ e _ hc hstep⟩
+          have : model.restrict.step (s.with3 a b d) e = some (s1.with3 a1 b1 d1) := by
+            refine restrict_step _ e _ hstep (fun hobs => ?_)
+            have : cands (s.with3 a b d) = allCands (s.with3 a b d) := by simp [cands, hn]
+            rw [this]
+            exact allCands_complete _ _ e hstep hobs
+          simp [OLTS.run, this]
+      obtain ⟨pre, hpre, hpobs, hc1⟩ := hmove
+      obtain ⟨es2, a2, b2, d2, hrun2, hes2, hn2, hc2, hrel2⟩ := normalize _ (s1.with3 a1 b1 d1) hc1 (Nat.le_refl _)
+      have hR2 : RelC s1.bc s1.th s1.ws s1.jobs a2 b2 d2 := hrel2 _ _ _ hR1
+      obtain ⟨es3, c3, hrun3, hes3⟩ := ih s1 a2 b2 d2 s' hs1 hc2 hn2 hR2 hrun
+      refine ⟨pre ++ (es2 ++ es3), c3, ?_, ?_⟩
+      · rw [OLTS.run_append, hpre, Option.bind_some, OLTS.run_append, hrun2, Option.bind_some]
+        exact hrun3
+      · simp only [List.filterMap_append, hpobs, hes2, hes3, List.nil_append]
+        cases hob : e.obs <;> simp [hob]
+
+/-- **the reduced search loses nothing**: every observable trace of the (unreduced) model is the
+trace of a run that uses only the candidate events -/
+theorem reduced_covers_model (es : List Ev) (s : St) (h : model.run model.init es = some s) :
+    ∃ es' s', model.restrict.run model.init es' = some s' ∧
+      es'.filterMap model.obs = es.filterMap model.obs :=
+  red_run es {} [] [] [] s init_inv init_inv rfl (RelC.refl _ _ _ _) h
+
+end UtilModel.Conc
+
+namespace UtilModel
+
+/-- the *unreduced* candidate list (`allCands`) is complete … -/
+theorem complete_conc_allCands : ({ Conc.model with cands := Conc.allCands } : OLTS _ _ _).Complete :=
+  ⟨fun s e s' hs ho => Conc.allCands_complete s s' e hs ho, Conc.evs_complete⟩
+
+/-- … but the reduced list the driver uses is not (by design): while a `WaitIdle` caller is about
+to sample a busy queue only its sample section is tried, so the (enabled) critical section of a
+pending `Enqueue` is not a candidate -/
+theorem not_complete_conc : ¬ Conc.model.Complete := by
+  intro h
+  have := h.cands { created := true, running := 1, ws := [.inJob 0],
+                    jobs := [{ isNil := false, st := .active }], th := [.wiInv 0, .enqInv []] }
+    (.enqCS 1) _ rfl rfl
+  revert this
+  decide
+
+/-- the model restricted to the reduced candidates is complete -/
+theorem complete_conc_reduced : Conc.model.restrict.Complete :=
+  Conc.model.restrict_complete Conc.evs_complete
+
+/-- **A REJECT of the ConcurrentQueue correspondence is about the (unreduced) model**: when the
+driver's run fails at an observable without having hit the exploration bounds, no run of the model —
+with arbitrary interleavings of its internal events, not only those the reduced search tries —
+projects to the recorded history. -/
+theorem reject_sound_conc (cap fuel : Nat) (h : List Conc.Obs) (i : Nat)
+    (hfail : (Conc.model.accRunH cap fuel [Conc.model.init] h 0 false 1).failedAt = some i)
+    (htr : (Conc.model.accRunH cap fuel [Conc.model.init] h 0 false 1).truncated = false) :
+    ¬ ∃ es s, Conc.model.run Conc.model.init es = some s ∧ es.filterMap Conc.model.obs = h := by
+  rintro ⟨es, s, hr, hp⟩
+  obtain ⟨es', s', hr', hp'⟩ := Conc.reduced_covers_model es s hr
+  rw [← Conc.model.accRunH_restrict] at hfail htr
+  exact rejectH_sound Conc.model.restrict complete_conc_reduced cap fuel h i hfail htr
+    ⟨es', s', hr', by rw [← hp]; exact hp'⟩
 
 end UtilModel
